@@ -218,9 +218,9 @@ def run(ck):
     try:
         for path in range(12):
             for dyn in ([1.0, 1e4] if q else [1e-3, 1.0, 1e4, 1e6]):
-                oracle_accuracy(ck, path, dyn)
-            oracle_convert(ck, path)
-            oracle_strided(ck, path)
+                rt.guard(ck, oracle_accuracy, ck, path, dyn)
+            rt.guard(ck, oracle_convert, ck, path)
+            rt.guard(ck, oracle_strided, ck, path)
     finally:
         torch.set_default_dtype(old)
 
